@@ -266,6 +266,16 @@ def frontManyLine (srcs : List (Option IDL × String)) : Sx :=
 def modelLine (c : Sx) : Option Sx :=
   match c with
   | .list [.atom "helper-batch"] => some (tagged "helper-batch" [.atom "ok"])
+  | .list [.atom "regen", .atom which, _, src2] =>
+    -- generating again replaces the earlier output: only the second text counts
+    (parseSrc src2).map fun p => match frontLine (if which == "tosource" then "tosource" else "build") p with
+      | .list (.atom _ :: rest) => tagged "regen" rest
+      | x => x
+  | .list [.atom "desc", src] =>
+    -- `get_description()` of the generated proxy is the definition text, verbatim
+    (parseSrc src).bind fun p => match p with
+      | (some i, _) => some (tagged "desc" [.atom (if verdict i == .ok then "t" else "nobuild")])
+      | (none, _) => some (tagged "desc" [.atom "nobuild"])
   | .list [.atom "frontpath", .atom which, _, src] =>
     -- the path of the input only decides WHERE the output goes (checked by the harness against the documented place)
     (parseSrc src).map fun p => match frontLine (if which == "tosource" then "tosource" else "build") p with
@@ -386,6 +396,8 @@ def predC08 (c o : Sx) : String :=
   | .list [.atom "helper-batch"] => "ok"
   | .list (.atom "frontpath" :: _) => "ok"
   | .list (.atom "options" :: _) => "ok"
+  | .list (.atom "regen" :: _) => "ok"
+  | .list (.atom "desc" :: _) => "ok"
   | _ => "fail unparsable-case"
 
 def predC09 (c o : Sx) : String :=
@@ -424,6 +436,21 @@ def predC09 (c o : Sx) : String :=
            | .list [.atom e, .atom s] => (e == "t", if s == "-" then none else some (s == "t"))
            | _ => (false, none)))
      | _, _ => "fail unexpected-frontmany-observation")
+  | .list [.atom "regen", .atom which, _, src2] =>
+    (match parseSrc src2, o with
+     | some (i?, _), .list [.atom "regen", _, .atom status, .atom emitted, .atom same] =>
+       (match P_C09_front i? status (emitted == "t") (if same == "-" then none else some (same == "t")) with
+        | none => "ok"
+        | some r => if r.endsWith "class=none" || !((r.splitOn " class=").length == 2)
+                    then "fail " ++ r ++ " after-regenerating-into-the-same-place entry=" ++ which
+                    else "fail " ++ r)
+     | _, _ => "fail unexpected-regen-observation")
+  | .list [.atom "desc", _] =>
+    (match o with
+     | .list [.atom "desc", .atom "t"] => "ok"
+     | .list [.atom "desc", .atom "nobuild"] => "ok"
+     | .list [.atom "desc", .atom "f"] => "fail emitted-description-differs-from-definition-text"
+     | _ => "fail unexpected-desc-observation")
   | .list [.atom "frontpath", .atom which, rel, src] =>
     (match parseSrc src, o with
      | some (i?, _), .list [.atom "frontpath", _, .atom status, .atom emitted, .atom same] =>
